@@ -178,9 +178,16 @@ func goEapData(s *SX) eap.EapTypeData {
 		return &eap.EapExpanded{VendorID: uint32(s.U(1)), VendorType: uint32(s.U(2)), VendorData: s.B(3)}
 	case "aka":
 		a := eap.NewEapAkaPrime(eap.EapAkaSubtype(s.U(1)))
-		for _, at := range s.Tail(2) {
+		// construction history: a third of the packets are serialised at some points WHILE they are being built (as a
+		// caller that logs, or computes AT_MAC over, a half-built packet does); encoding is pure, so the finished value - and
+		// everything done with it - must be the same
+		h := valHash(s)
+		for i, at := range s.Tail(2) {
 			if err := a.SetAttr(eap.EapAkaPrimeAttrType(at.U(1)), at.B(2)); err != nil {
 				panic(setterRefused{err})
+			}
+			if h%3 == 0 && (h>>(8+uint(i%40)))&1 == 1 {
+				quiet(func() { _, _ = a.Marshal() })
 			}
 		}
 		return a
@@ -192,6 +199,9 @@ func goEapData(s *SX) eap.EapTypeData {
 func goEap(s *SX) *eap.EAP {
 	e := &eap.EAP{Code: eap.EapCode(s.U(1)), Identifier: uint8(s.U(2)), EapTypeData: goEapData(s.At(3))}
 	layout(e, s)
+	if valHash(s)%4 == 1 { // a value that has been encoded before (see goMsg)
+		quiet(func() { _, _ = e.Marshal() })
+	}
 	return e
 }
 func goPayload(s *SX) message.IKEPayload {
@@ -263,7 +273,27 @@ func goHeader(h *SX) *message.IKEHeader {
 func goMsg(s *SX) *message.IKEMessage {
 	m := &message.IKEMessage{IKEHeader: goHeader(s.At(1)), Payloads: goPayloadsRaw(s.At(2))}
 	layout(m, s)
+	if valHash(s)%4 == 1 {
+		// a quarter of the message values have been encoded once before they are used (a retransmission, a logged copy):
+		// encoding alters nothing but header bookkeeping that the next encoding recomputes, so nothing may depend on it
+		quiet(func() { _, _ = m.Encode() })
+	}
 	return m
+}
+
+// valHash: a hash of the value's own text (a case always gets the same layout and the same construction history)
+func valHash(s *SX) uint64 {
+	h := uint64(1469598103934665603)
+	for _, ch := range []byte(s.String()) {
+		h = (h ^ uint64(ch)) * 1099511628211
+	}
+	return h
+}
+
+// quiet runs f and swallows a panic (the caller evaluates the same operation again, observed)
+func quiet(f func()) {
+	defer func() { _ = recover() }()
+	f()
 }
 
 // layout: two thirds of the values (chosen by a hash of the value itself, so that a case always gets the same layout) are
@@ -273,11 +303,7 @@ func layout(x interface{}, s *SX) {
 		packValue(x, packSeed)
 		return
 	}
-	h := uint64(1469598103934665603)
-	for _, ch := range []byte(s.String()) {
-		h = (h ^ uint64(ch)) * 1099511628211
-	}
-	if h%3 != 0 {
+	if h := valHash(s); h%3 != 0 {
 		packValue(x, h|1)
 	}
 }
@@ -286,7 +312,9 @@ func layout(x interface{}, s *SX) {
 
 // run evaluates f; a panic is the outcome "fault", a refused SetAttr while building the input "setter-refused"
 func run(f func() string) (out string) {
+	tick()
 	defer func() {
+		tick()
 		if r := recover(); r != nil {
 			if _, ok := r.(setterRefused); ok {
 				out = "setter-refused"
